@@ -73,6 +73,17 @@ def plan(tier, seed):
         out.append({"slice": "session:U3x3x2", "osh": osh, "ssh": ssh, "menu": u2,
                     "costs": [core[0], core[6]] if tier == "quick" else [core[0], core[6], core[4], core[1]],
                     "session": True, "unnamed": bool(k % 2)})
+    # the same history with the TOPOLOGY of the object tree edited in place between solves: one root node object is given
+    # every object shape of 2..4 leaves in turn (Session.rebuild, one shard per rotation of the sequence), the inputs of each
+    # shape being divided among the rotations
+    base = [osh for n in (3, 4, 2) for osh in spaces.binary_shapes(n)]
+    k = 0
+    for ssh in list(spaces.binary_shapes(1)) + list(spaces.binary_shapes(2)):
+        for rot in range(len(base)):
+            seq = base[rot:] + base[:rot] + [base[rot]]
+            out.append({"slice": "retopology-session:U2..4x2x2", "osh": seq[0], "oshs": seq, "ssh": ssh, "menu": u2,
+                        "costs": [core[0]], "session": True, "unnamed": bool(k % 2), "part": (rot, len(base))})
+            k += 1
     return out
 
 
@@ -90,9 +101,23 @@ def run_shard(shard, tier, seed):
     n_eval = n_inputs = nt = vtotal = 0
     viols = []
     samples = []
-    counters = {"solver_runs": 0, "oracle_brute": 0, "oracle_bellman": 0}
+    counters = {"solver_runs": 0, "oracle_brute": 0, "oracle_bellman": 0, "topology_edits": 0}
     sess = A.Session(O, S, labelled=True, unordered=True, unnamed=shard.get("unnamed", False)) if shard.get("session") else None
-    for leafmap, leafsyn in L.labelled_inputs(O, S, shard["menu"], shard.get("part")):
+
+    def inputs():
+        if not shard.get("oshs"):
+            for lm, ls in L.labelled_inputs(O, S, shard["menu"], shard.get("part")):
+                yield osh, O, lm, ls
+            return
+        for i, osh_i in enumerate(shard["oshs"]):
+            O_i = T(osh_i)
+            if i:
+                sess.rebuild(O_i)
+                counters["topology_edits"] += 1
+            for lm, ls in L.labelled_inputs(O_i, S, shard["menu"], shard.get("part")):
+                yield osh_i, O_i, lm, ls
+
+    for osh, O, leafmap, leafsyn in inputs():
         n_inputs += 1
         is_nt = nontrivial(O, leafsyn)
         for costs in shard["costs"]:
